@@ -28,6 +28,8 @@
 (*   | "delKeeps" (delete does not invalidate) | "utlStale" (upsert-then-   *)
 (*   load caches the upsert's answer instead of the loaded row)             *)
 (*   | "addBlind" (add does not look into the cache)                        *)
+(*   | "addFast" (the duplicate check of add is made by the caller at       *)
+(*   submission, mirroring DoGet's fast path, not by the handler)           *)
 (*   | "split" (a key is routed by operation id: two workers for one key)   *)
 (***************************************************************************)
 EXTENDS Integers, Sequences, FiniteSets, TLC, MuxStore
@@ -73,7 +75,7 @@ Decide(a, hit, cv, rs) ==
          IF hit THEN FinD("none", 0, Ok(cv))
          ELSE IF n = 0 THEN CallD("load", 0) ELSE Renew(a, rs[1])
     [] a.op = "add" ->
-         IF hit /\ Dev # "addBlind" THEN FinD("none", 0, Err("dup"))
+         IF hit /\ Dev \notin {"addBlind", "addFast"} THEN FinD("none", 0, Err("dup"))
          ELSE IF n = 0 THEN CallD("add", 0) ELSE Renew(a, rs[1])
     [] a.op = "upd" ->
          IF hit THEN (IF n = 0 THEN CallD("upd", cv) ELSE Renew(a, rs[1]))
@@ -127,7 +129,7 @@ Submit(a) ==
   /\ Len(ops) < MaxOps /\ a.id = Len(ops) + 1
   /\ Gated => (Quiet /\ Cardinality(Unfinished) < MaxOut)
   /\ LET w == Route(a) IN
-       IF a.op = "get" /\ cache[w][a.k] # 0                 \* DoGet fast path, caller's goroutine
+       IF (a.op = "get" \/ (a.op = "add" /\ Dev = "addFast")) /\ cache[w][a.k] # 0   \* DoGet fast path, caller's goroutine
        THEN ops' = Append(ops, NewOp(a, "done")) /\ UNCHANGED <<q, acck>>
        ELSE IF a.op = "get"
        THEN ops' = Append(ops, NewOp(a, "enq")) /\ UNCHANGED <<q, acck>>
